@@ -403,6 +403,43 @@ pub fn run(ctx: &mut Ctx) {
         rep.distinct(&format!("{}->{}", a, b), true);
         rep.sample(|| json!({"stage":"units","from":a,"to":b,"category":cname}));
     });
+    // ---- every documented spelling of a unit denotes that unit (case, blanks and a leading degree sign are ignored)
+    const ALIASES: &[(&str, &[&str])] = &[
+        ("kg", &["kilogram", "kilograms"]), ("g", &["gram", "grams"]), ("mg", &["milligram", "milligrams"]),
+        ("lb", &["lbs", "pound", "pounds"]), ("oz", &["ounce", "ounces"]), ("stone", &["st", "stones"]), ("slug", &["slugs"]),
+        ("tonne", &["ton", "metric_ton", "metric ton"]),
+        ("l", &["liter", "liters", "litre", "litres"]), ("ml", &["milliliter", "milliliters", "millilitre", "millilitres"]),
+        ("gal", &["gallon", "gallons"]), ("quart", &["quarts", "qt", "qts", "liquid quart", "liquid_quart"]), ("dry quart", &["dry_quart"]),
+        ("pint", &["pints", "pt", "pts", "liquid pint", "liquid_pint"]), ("dry pint", &["dry_pint"]), ("cup", &["cups"]),
+        ("fl oz", &["floz", "fluid ounce", "fluid_ounce", "fluid-ounce"]), ("tbsp", &["tablespoon", "tablespoons"]), ("tsp", &["teaspoon", "teaspoons"]),
+        ("m3", &["cubic meter", "cubic_meter"]), ("ft3", &["cubic foot", "cubic_foot", "cu ft"]), ("yd3", &["cubic yard", "cubic_yard", "cu yd"]),
+        ("m/s", &["meter per second", "meters per second", "meter_per_second"]), ("km/h", &["kph", "kilometer per hour", "kilometers per hour", "kilometer_per_hour"]),
+        ("mph", &["mile per hour", "miles per hour", "mile_per_hour"]), ("knot", &["kn", "knots"]), ("ft/s", &["fps", "foot per second", "feet per second", "foot_per_second"]),
+        ("K", &["kelvin", "k"]), ("C", &["celsius", "c", "°C"]), ("F", &["fahrenheit", "f", "°F"]),
+    ];
+    ctx.stage("units-aliases", ALIASES.len() as u64, true, |idx, rng, rep| {
+        let (canon_unit, aliases) = ALIASES[idx as usize];
+        for a in aliases.iter() {
+            for variant in [a.to_string(), a.to_uppercase(), format!(" {} ", a), { let mut cs = a.chars(); match cs.next() { Some(f) => format!("{}{}", f.to_uppercase(), cs.as_str()), None => String::new() } }] {
+                let x = rng.range(-1000, 1000) as f64 / 8.0;
+                for (from, to) in [(variant.as_str(), canon_unit), (canon_unit, variant.as_str())] {
+                    let out = conv(x, from, to);
+                    rep.eval();
+                    rep.count("unit_alias_checks");
+                    let ok = matches!(fval(&out), Some(y) if close(y, x, 1e-12, 1e-9));
+                    if !ok {
+                        rep.viol(
+                            &format!("units|alias|{}", canon_unit),
+                            &format!("uomConvert({:?}, {:?}, {:?}) gave {}: `{}` is a documented spelling of `{}`", x, from, to, out.show(), a, canon_unit),
+                            json!({"x": x, "from": from, "to": to}),
+                        );
+                    }
+                }
+            }
+        }
+        rep.distinct(canon_unit, true);
+    });
+
     ctx.stage("units-temperature-and-errors", 9 + 1, true, |idx, rng, rep| {
         if idx < 9 {
             let (a, b) = (TEMP[(idx / 3) as usize], TEMP[(idx % 3) as usize]);
